@@ -20,6 +20,10 @@ def run(ctx, sess):
     from .common import relay
     from . import c03 as _src_c03
     relay(ctx, sess, _src_c03.run, {'C03.j': 'C19.5'})
+    ctx.rule('C19.7', 'one open repairs the file completely: the repair sequence of jls_rd_open - truncate, rewrite the last chunk, pointer repair, rebuild, END, close, reopen - runs unconditionally and in order on the not-closed branch (shared with C03.b), so the second open finds a closed file and changes nothing')
+    relay(ctx, sess, _src_c03.run, {'C03.b': 'C19.7'}, minimum=10)
+    ctx.rule('C19.8', 'what repair rewrites in place is what both opens read: a chunk header that repair rewrites (jls_core_update_chunk_header) is a copy of the chunk just read from the file; a copy of state the reader cached before the repair (a list head, a definition) is rewritten only if that cached state is updated as well')
+    rewrite_source_rule(ctx, sess.prog('default'))
     ownership_rule(ctx, sess.prog('default'))
     P = sess.prog('default')
     ctx.rule('C19.1', 'read-only by construction: "r" -> O_RDONLY; reader and copy open with "r" except on the not-closed branch; the "r" arm of jls_raw_open does not enable writing')
@@ -219,3 +223,68 @@ def ownership_rule(ctx, P):
                                'FSR writer module' if ok else
                                'jls_core_fsr_s.sample_id_offset is only set by the FSR writer on its first sample; in a reader or in repair it is 0, the offset of the signal is signal_def.sample_id_offset')
     ctx.floor('uses of the length cache and the writer-side offset', n, 4)
+
+
+
+def rewrite_source_rule(ctx, P):
+    from ..ir import strip_casts, walk, show
+    from ..graph import find_path
+    reach = P.reachable_from(['jls_rd_open'])
+    n = 0
+    for fn in P.all_functions():
+        if fn.name not in reach and fn.name != 'jls_rd_open':
+            continue
+        for c in fn.calls('jls_core_update_chunk_header'):
+            a = strip_casts(c.args[1]) if len(c.args) > 1 else None
+            if a is None or a.get('op') != 'un' or a.get('o') != '&' or strip_casts(a['k'][0]).get('op') != 'ref':
+                continue
+            X = strip_casts(a['k'][0])['name']
+            n += 1
+            ctx.saw(fn, 1)
+            # where the struct comes from (whole-object copies, followed through local copies)
+            def sources(name, seen):
+                out = set()
+                if name in seen:
+                    return out
+                seen.add(name)
+                for ev in fn.events():
+                    if ev.k == 'decl' and ev.name == name and ev.e is not None:
+                        rhs = ev.e
+                    elif ev.k == 'store' and strip_casts(ev.store_parts()[0]).get('op') == 'ref' and strip_casts(ev.store_parts()[0]).get('name') == name and ev.store_parts()[2] == '=':
+                        rhs = ev.store_parts()[1]
+                    else:
+                        continue
+                    r0 = strip_casts(rhs) if rhs is not None else None
+                    if r0 is None:
+                        continue
+                    if r0.get('op') == 'ref' and r0.get('rk') == 'local':
+                        out |= sources(r0['name'], seen)
+                    elif r0.get('op') == 'member':
+                        out.add((r0.get('field'), show(r0)))
+                    elif r0.get('op') == 'un' and r0.get('o') == '*':
+                        out.add(('param object', show(r0)))
+                    else:
+                        out.add(('fresh', ''))
+                return out
+            src = sources(X, set())
+            cached = sorted(s_ for s_ in src if s_[0] not in ('chunk_cur', 'fresh'))
+            bad = None
+            for field, text in cached:
+                # the cached object must be stored again after the rewrite on every path to the exit
+                def on_ev(e2, facts, text=text):
+                    if e2.k == 'store':
+                        l0 = show(strip_casts(e2.store_parts()[0]))
+                        if l0 == text or l0.startswith(text + '.') or l0.startswith(text + '->'):
+                            return 'stop'
+                    if e2.k == 'ret':
+                        return 'target'
+                    return None
+                w = find_path(fn, c, on_ev, refine=False)
+                if w is not None:
+                    bad = (text, w)
+                    break
+            ctx.ob('C19.8', bad is None, fn.name, 'in-place rewrite of the header copy %s' % X, c.where(),
+                   'copy of the chunk just read%s' % ('' if not cached else ' (cached state updated as well)') if bad is None else
+                   '%s can be a copy of %s, which the reader cached before the repair: the file is changed but the cached copy is not, so the repairing open and the next open see different chains' % (X, bad[0]),
+                   bad[1].render() if bad else None)
+    ctx.floor('in-place header rewrites reachable from jls_rd_open', n, 3)
